@@ -1,4 +1,6 @@
 ---------------------------- MODULE MC_SimAgent ----------------------------
 EXTENDS SimAgent
 MCInit2 == [u \in Users |-> IF u = "u1" THEN File("p1", 1, FALSE) ELSE File("p2", 2, TRUE)]
+MCPolicyAll == {u \o "/" \o p : u \in Users, p \in Pws}
+MCPolicyP1  == {u \o "/" \o "p1" : u \in Users}
 =============================================================================
